@@ -29,6 +29,18 @@ CLAIMS["C27"] = {"engine": "inplace", "ref": "DESIGN.md section 0.8 and 6/C27", 
  "note": "Trusted: TLC, the harness's drop-recording element types and its watching allocator. Not observable: a read of freed/uninitialised memory that neither changes a drop log nor crashes. Bounds: lengths <= 4 (quick) / 6 (thorough).",
  "technique": "TLA+ state machine + TLC (exhaustive inputs); spec->impl replay of every behaviour; impl->spec trace validation of drop logs"}
 
+ENGINES["coherence"] = ("/verif/spec/Coherence.tla, CoherenceMC.tla, Orphan.tla, OrphanMC.tla; /verif/lib/props_coh.py; /verif/harness/src/lowerq.rs",
+                        "TLA+ specifications of the coherence algorithm (pair loop, specialization forest, priorities) with the meaning of impl headers, and of the orphan rule vs. its clause encoding; TLC exhaustive; verdict/priorities replayed on the real queries")
+TABLE_NOTE = "Trusted: TLC, the renderer from abstract programs to .chalk text, the meaning written in the specification. "
+CLAIMS["C19"] = {"engine": "coherence", "ref": "DESIGN.md section 0.8 and 6/C19", "level": "model_checking",
+ "text": "Coherence.tla specifies visit_specializations_of_trait (pair loop in id order, skip of negative pairs, marker traits, the disjoint and specializes queries incl. the `compatible` modality), build_specialization_forest and set_priorities as a state machine, next to the meaning of impl headers (set of concrete types an impl applies to). TLC explores every program with <= 3 impls (672 k states) and checks Total (no panic state), EqualPrioDisjoint and SubsetHigher. A seed-chosen set of programs with <= 4 impls plus fixed chains/diamond-like cases is rendered and the real coherence() under both solvers must return the specified verdict and exactly the specified priorities.",
+ "note": TABLE_NOTE + "Bounds: one trait, headers V^d<T|A|B> (d <= 2), where-clause T: Bar, positive/negative, marker; all items local.",
+ "technique": "TLA+ algorithm+meaning specification, TLC exhaustive; spec->impl replay of verdict and priorities"}
+CLAIMS["C20"] = {"engine": "coherence", "ref": "DESIGN.md section 0.8 and 6/C20", "level": "model_checking",
+ "text": "Orphan.tla states the orphan rule (OrphanOK) and, separately, chalk's clause encoding (LocalImplAllowed :- IsFullyVisible(prefix), IsLocal(Pi); IsLocal / IsFullyVisible per type constructor as generated by AdtDatum and match_ty). TLC checks that they agree on all 159 014 impl headers with 3 type arguments over 43 argument shapes, and prints the verdict table; a residue class of it (all 1- and 2-argument headers in the thorough tier) is replayed on the real orphan_check() under both solvers.",
+ "note": TABLE_NOTE + "Bounds: up to 3 type arguments; local / upstream / generic / fundamental-upstream structs (nested), u32, pairs, one impl parameter.",
+ "technique": "TLA+ rule-vs-encoding specification, TLC exhaustive; spec->impl replay of the verdict table"}
+
 # properties without a check: reason (default below)
 NA_DEFAULT = ("not claimed yet: the specification module and conformance harness planned for it in DESIGN.md section 6 are not built; "
               "no check is registered rather than registering one that is not sound")
